@@ -96,6 +96,8 @@ const (
 	OFpToSInt // FP -> BV (RTZ), A = width
 	OFpToUInt
 	OFpToFp // FP -> FP other width (RNE)
+	OFpRoundRNA // roundToIntegral, ties away from zero
+	OFpRoundRTZ // roundToIntegral toward zero
 	// strings
 	OStrConcat
 	OStrLt
@@ -116,6 +118,9 @@ type Ctx struct {
 	n     int
 	Funs  map[string]FunDecl
 	fresh int
+	// UsesFP is set once any floating-point term exists: queries then go to a fresh one-shot solver
+	// process (z3's incremental core needs > 60 s for FP conversions that the one-shot tactic decides in 5 s).
+	UsesFP bool
 }
 
 type FunDecl struct {
@@ -139,6 +144,9 @@ func (c *Ctx) mk(op Op, s Sort, val uint64, name string, a, b int, args ...*Term
 		return t
 	}
 	c.n++
+	if s.K == SFP {
+		c.UsesFP = true
+	}
 	t := &Term{Op: op, S: s, Args: args, Val: val, Name: name, A: a, B: b, ID: c.n}
 	c.table[k] = t
 	return t
@@ -726,6 +734,22 @@ func (c *Ctx) FpToFp(a *Term, w int) *Term {
 	return c.mk(OFpToFp, FP(w), 0, "", 0, 0, a)
 }
 
+func (c *Ctx) FpRound(a *Term, away bool) *Term {
+	if a.IsConst() {
+		f := a.Float()
+		if !math.IsNaN(f) {
+			if away {
+				return c.fpFromFloat(math.Round(f), a.S.W)
+			}
+			return c.fpFromFloat(math.Trunc(f), a.S.W)
+		}
+	}
+	if away {
+		return c.mk(OFpRoundRNA, a.S, 0, "", 0, 0, a)
+	}
+	return c.mk(OFpRoundRTZ, a.S, 0, "", 0, 0, a)
+}
+
 // ---- strings ----
 
 func (c *Ctx) StrConcat(a, b *Term) *Term {
@@ -834,6 +858,10 @@ func (t *Term) render(ch []string) string {
 		return fmt.Sprintf("((_ fp.to_ubv %d) RTZ %s)", t.A, ch[0])
 	case OFpToFp:
 		return fmt.Sprintf("((_ to_fp %s) RNE %s)", fpSortArgs(t.S.W), ch[0])
+	case OFpRoundRNA:
+		return fmt.Sprintf("(fp.roundToIntegral RNA %s)", ch[0])
+	case OFpRoundRTZ:
+		return fmt.Sprintf("(fp.roundToIntegral RTZ %s)", ch[0])
 	}
 	if n, ok := opNames[t.Op]; ok {
 		return "(" + n + " " + strings.Join(ch, " ") + ")"
